@@ -72,22 +72,23 @@ CHECKS = {
     ),
     'C04': dict(
         category='other',
-        text=('Bounded symbolic execution (CrossHair + z3) of the real Executor.set_cells/get_cell/handle_cell/Cell and the emitted '
-              '_cell_preprocessor over the class the real Parser emits for a two-sheet workbook; per condition the override targets are concrete '
-              '(all 49 ordered pairs of 7 target kinds) and the values, addressing style and queried cell are symbolic; the oracle is the '
-              'workbook re-translated by the real Parser with constants at the overridden positions, evaluated with the last-write map. '
-              'Because Cell.__hash__ hashes the value, the engine realises values early: the solver enumerates the bounded history space '
-              'rather than abstracting it - stated as such.'),
+        text=('Bounded exhaustive exploration of override histories (two writes with any second target / value from an 8-value family incl. '
+              'equal-valued values of different types and falsy values / both addressing styles / one or two batches / optional query in between; '
+              'and one cell written three times), enumerated by z3 (DFS with blocking constraints) and executed natively on the real Executor '
+              'over the class emitted by the real Parser for a three-sheet workbook; oracle = the workbook re-translated by the real Parser with '
+              'constants at the overridden positions ("edit and recalculate"), evaluated with the last-write map. About 170 000 histories.'),
         design_ref='DESIGN.md section 6 / C04',
-        note=('histories of at most 3 writes; values in small integer ranges plus a 5-value falsy/text family; set-iteration orders other than the '
-              "running process's are not explored; one known finding (whole-column reference vs override below the used range) is partitioned out."),
-        technique='symbolic execution of the real Python code (CrossHair/z3) against a re-translated edited workbook as reference',
-        engine='E1',
+        note=('the code under test hashes every value, so the solver is the exhaustive enumerator of the stated finite space, not an abstraction; '
+              "set-iteration orders other than the running process's are not explored; histories longer than 3 writes are outside the claim; one "
+              'known finding (whole-column reference vs override below the used range) is partitioned out by region. E1 (CrossHair) was tried '
+              'first: 0.3-1 s per path (measured).'),
+        technique='solver-enumerated bounded exploration (z3 DFS) with native execution of the real code, reference = re-translated edited workbook',
+        engine='E2',
     ),
     'C08': dict(
         category='other',
         text=('Bounded exhaustive exploration of the Executor query-schedule space (one override, two queries over all five query APIs and '
-              'addressing styles; 78 750 schedules), enumerated by z3 (DFS with blocking constraints over the schedule variables) and executed '
+              'addressing styles; 129 600 schedules), enumerated by z3 (DFS with blocking constraints over the schedule variables) and executed '
               'natively on the real Executor over the class emitted by the real Parser; each schedule is compared with a fresh Executor, and '
               'overrides/sizes/grid shape are checked. The code under test hashes every value, so the solver acts as the exhaustive enumerator '
               'of the stated finite space rather than abstracting values.'),
